@@ -224,7 +224,7 @@ u8_t *get_v_opt(int argc, char *argv[])
     srand((unsigned)time(NULL));
     memset(fout, 0, sizeof(fout));
     int option_index = 0;
-    optind = 1;
+    optind = 0;
     vpak_t *res = new vpak_t;
     res->mode = 'u';
     res->ctype = -1;
